@@ -209,7 +209,21 @@ pub fn explore_scenario(
             capped = true;
             break;
         }
-        let (res, diverged) = run_schedule(scn, &prefix);
+        // scenarios whose outcome depends on process-wide counters starting fresh run every execution in a child process
+        let (res, diverged, ct) = if scn.has_tag("fresh_process") {
+            match run_schedule_fresh(scn, &prefix) {
+                Some(x) => x,
+                None => {
+                    stats.machinery_errors += 1;
+                    eprintln!("MACHINERY scenario={} schedule={:?}: fresh-process execution failed", scn.name, prefix);
+                    continue;
+                }
+            }
+        } else {
+            let (res, diverged) = run_schedule(scn, &prefix);
+            let ct = canon(&res.trace, &res.raw_ids);
+            (res, diverged, ct)
+        };
         execs += 1;
         stats.executions += 1;
         stats.states += res.points;
@@ -222,7 +236,6 @@ pub fn explore_scenario(
             );
             continue;
         }
-        let ct = canon(&res.trace, &res.raw_ids);
         let h = if scn.has_tag("feature_neutral") { hash_trace(&feature_neutral(&ct)) } else { hash_trace(&ct) };
         let chosen: Vec<u16> = res.steps.iter().map(|s| s.chosen as u16).collect();
         chosen.hash(&mut tree);
@@ -471,4 +484,29 @@ pub fn fresh_replay_hash(scn: &Arc<Scenario>, schedule: &[u16]) -> Option<u64> {
     let _ = std::fs::remove_file(&file);
     let text = String::from_utf8_lossy(&out.stdout);
     text.lines().find_map(|l| l.strip_prefix("HASH ").and_then(|h| u64::from_str_radix(h.trim(), 16).ok()))
+}
+
+/// One execution in a fresh child process of this binary; returns the step records and the canonical trace.
+pub fn run_schedule_fresh(scn: &Arc<Scenario>, schedule: &[u16]) -> Option<(ExecResult, bool, Vec<Ev>)> {
+    let exe = std::env::current_exe().ok()?;
+    let file = std::env::temp_dir().join(format!("rsv-exec-{}-{}.json", std::process::id(), HEARTBEAT.load(std::sync::atomic::Ordering::SeqCst)));
+    HEARTBEAT.fetch_add(1, std::sync::atomic::Ordering::SeqCst);
+    let body = serde_json::json!({"scenario": **scn, "schedule": schedule});
+    std::fs::write(&file, serde_json::to_string(&body).ok()?).ok()?;
+    let out = std::process::Command::new(exe).arg("exec-json").arg(&file).output().ok()?;
+    let _ = std::fs::remove_file(&file);
+    let text = String::from_utf8_lossy(&out.stdout);
+    let line = text.lines().rev().find(|l| l.starts_with('{'))?;
+    let v: serde_json::Value = serde_json::from_str(line).ok()?;
+    let steps: Vec<crate::world::StepRec> = v["steps"].as_array()?.iter().map(|s| crate::world::StepRec { n: s[0].as_u64().unwrap_or(0) as usize, chosen: s[1].as_u64().unwrap_or(0) as usize, cont: s[2].as_bool().unwrap_or(false) }).collect();
+    let trace: Vec<Ev> = serde_json::from_value(v["trace"].clone()).ok()?;
+    let res = ExecResult {
+        trace: Vec::new(),
+        steps,
+        points: v["points"].as_u64().unwrap_or(0),
+        actions: v["actions"].as_u64().unwrap_or(0),
+        error: v["error"].as_str().map(|s| s.to_string()),
+        raw_ids: Vec::new(),
+    };
+    Some((res, v["diverged"].as_bool().unwrap_or(false), trace))
 }
